@@ -37,6 +37,21 @@ fn parse_op(op: &str) -> Option<Op> {
     })
 }
 
+struct Hinted<I> {
+    it: I,
+    hint: (usize, Option<usize>),
+}
+
+impl<I: Iterator> Iterator for Hinted<I> {
+    type Item = I::Item;
+    fn next(&mut self) -> Option<I::Item> {
+        self.it.next()
+    }
+    fn size_hint(&self) -> (usize, Option<usize>) {
+        self.hint
+    }
+}
+
 fn show<'a, I: Iterator<Item = (String, String)>>(it: I) -> String {
     let v: Vec<String> = it.map(|(k, v)| format!("{}={}", k, v)).collect();
     format!("[{}]", v.join(","))
@@ -48,7 +63,11 @@ fn via_macro<'a>(ps: &'a [(String, Tok)]) -> Option<FluentArgs<'a>> {
     Some(match ps.len() {
         0 => fluent_args![],
         1 => fluent_args![k(0) => v(0)],
-        2 => fluent_args![k(0) => v(0), k(1) => v(1)],
+        2 => {
+            // keys that are bare identifiers (local variables holding the key): the VALUE of the variable is the key
+            let (ka, kb) = (k(0), k(1));
+            fluent_args![ka => v(0), kb => v(1)]
+        }
         3 => fluent_args![k(0) => v(0), k(1) => v(1), k(2) => v(2)],
         4 => fluent_args![k(0) => v(0), k(1) => v(1), k(2) => v(2), k(3) => v(3),],
         5 => fluent_args![k(0) => v(0), k(1) => v(1), k(2) => v(2), k(3) => v(3), k(4) => v(4)],
@@ -94,7 +113,14 @@ fn run(payload: &str) -> String {
                 )
             }
             Some(Op::FromIter(ps)) => {
-                args = ps.iter().map(|(k, t)| (k.as_str(), tok_value(t))).collect();
+                // "collection from ANY iterator of pairs": the iterator's size hint is exact, absent, or the legal
+                // over-approximation that adapters such as `(0..usize::MAX).filter(..)` report
+                let it = ps.iter().map(|(k, t)| (k.as_str(), tok_value(t)));
+                args = match ps.len() % 3 {
+                    0 => it.collect(),
+                    1 => Hinted { it, hint: (0, None) }.collect(),
+                    _ => Hinted { it, hint: (0, Some(usize::MAX)) }.collect(),
+                };
                 "ok".to_string()
             }
             Some(Op::Macro(ps)) => match via_macro(ps) {
